@@ -500,6 +500,67 @@ pub fn print_texts(mode: Mode, run: &mut Run) -> Stats {
     st
 }
 
+/// Performing a *block* (the interpreter does this for every nested block): its items go onto the exec
+/// stack, first item on top, all or nothing.  Every exec capacity 0..=5 x fill level x block length 0..=5.
+pub fn block_performs(mode: Mode, run: &mut Run) -> Stats {
+    let mut st = Stats::default();
+    let item = |k: usize| -> PushProgram {
+        if k % 3 == 2 {
+            PushProgram::Block(vec![PushProgram::Instruction(PushInstruction::push_int(900 + k as i64))])
+        } else {
+            PushProgram::Instruction(PushInstruction::push_int(100 + k as i64))
+        }
+    };
+    for cap in 0..=5usize {
+        for fill in 0..=cap {
+            for len in 0..=5usize {
+                let mut pre = RState::empty([cap, 4, 4, 4]);
+                pre.exec = (0..fill).map(|k| item(10 + k)).collect();
+                pre.int = vec![1, 2];
+                pre.boolean = vec![true];
+                pre.out = b"x".to_vec();
+                pre.inputs = default_inputs();
+                let block: Vec<PushProgram> = (0..len).map(item).collect();
+                let real = make_real(&pre, 100);
+                st.transitions += 1;
+                st.states += 1;
+                let name = format!("Block of {len} items");
+                let label = format!("performing a block of {len} items with {fill} of {cap} exec slots taken");
+                let replay = json!({"check": format!("{mode:?}"), "kind": "block", "cap": cap, "fill": fill, "len": len});
+                let before = real.clone();
+                let r = match mcx::guarded(|| real.perform(&PushProgram::Block(block.clone()))) {
+                    Ok(r) => classify(r),
+                    Err(p) => {
+                        run.violation(format!("perform/{name}/panic"), format!("{label}: panicked: {p}"), replay);
+                        continue;
+                    }
+                };
+                st.count("Block", r.kind);
+                let fits = fill + len <= cap;
+                if fits {
+                    let mut want = pre.clone();
+                    want.exec.extend(block.iter().rev().cloned());
+                    if mode == Mode::C01 && (r.kind != Kind::Ok || !real_matches(&r.state, &want)) {
+                        run.violation(format!("perform/{name}"), format!("{label}: {:?} {} with exec stack {:?}; expected the items on the exec stack, first item on top", r.kind, r.error.clone().unwrap_or_default(), observe(&r.state).exec), replay);
+                    }
+                } else {
+                    if mode == Mode::C01 && r.kind != Kind::Fatal {
+                        run.violation(format!("perform/{name}"), format!("{label}: {:?} {}; the block does not fit: a fatal overflow is due", r.kind, r.error.clone().unwrap_or_default()), replay.clone());
+                    }
+                    if r.kind != Kind::Ok && r.state != before {
+                        run.violation(
+                            format!("perform/{name}/state-changed-on-{:?}", r.kind),
+                            format!("{label}: failed ({:?}, {}) but the carried state differs from the state before: exec stack before {:?}, after {:?}", r.kind, r.error.clone().unwrap_or_default(), pre.exec, observe(&r.state).exec),
+                            replay,
+                        );
+                    }
+                }
+            }
+        }
+    }
+    st
+}
+
 pub fn set_caps(s: &mut PushState, caps: [usize; 4]) {
     use push::push_vm::HasStack;
     s.stack_mut::<PushProgram>().set_max_stack_size(caps[EXEC]);
@@ -793,6 +854,18 @@ pub fn replay(mode: Mode, v: &Value) -> bool {
                 }
             }
         }
+        Some("block") => {
+            let mut r = Run::new(&format!("{mode:?}"), "quick");
+            block_performs(mode, &mut r);
+            let g = r.violations.lock().unwrap();
+            for (k, x) in g.iter() {
+                println!("MISMATCH [{k}]: {}", x.what);
+            }
+            if g.is_empty() {
+                println!("replay: property held");
+            }
+            g.is_empty()
+        }
         Some("print-char") => {
             let (Some(r), Some(c)) = (rstate_de(&v["state_full"]), v["char"].as_u64().and_then(|c| char::from_u32(c as u32))) else {
                 println!("cannot decode state or character");
@@ -830,6 +903,10 @@ pub fn run(mode: Mode, run: &mut Run) {
     let mut d = value_sweep(mode, run);
     if mode == Mode::C01 {
         let e = print_texts(mode, run);
+        d.merge(&e);
+    }
+    {
+        let e = block_performs(mode, run);
         d.merge(&e);
     }
     let mut rows = b.rows.clone();
